@@ -177,11 +177,12 @@ class C06(Property):
         if use_new and "trunc" not in kinds and not text.isascii():
             kinds.append("trunc")     # pvl.new has its own bytes path
 
-        custom = (not use_new) and rng.random() < 0.1
+        custom = (not use_new) and rng.random() < 0.1 and \
+            rng.choice([True, "plain"])
 
         def do(case, nontrivial=True):
             if custom:
-                case = dict(case, custom=True)
+                case = dict(case, custom=custom)
             if use_new and "plan" not in case:
                 case = dict(case, config="new")
             vs = self.check(out, case)
